@@ -176,6 +176,10 @@ func H_C04_diff() {
 	p := lo + nondetChoice(hi-lo)
 	src := c04Progs[p]
 	vlabel("prog", src)
+	c04Diff(src)
+}
+
+func c04Diff(src string) {
 	k := 1 + nondetChoice(12) // 1..11 single switches, 12 = all off
 	mask := 1 << k
 	name := "all-off"
@@ -210,6 +214,15 @@ func H_C04_diff() {
 				if ma != mb && strings.HasPrefix(ma, "setpath(") && strings.HasSuffix(ma, ": "+mb) {
 					hSameOutputs(a[:len(a)-1], b[:len(b)-1], "optimised vs rewrite disabled")
 					vassert(false, "error message differs only by the setpath(...) wrapper of the constant-path assignment rewrite")
+					return
+				}
+				// second recorded finding, same rewrite: when the path expression itself fails
+				// (e.g. `.[1:].b = 1` on a string) the rewritten code reports setpath's own
+				// complaint, the generic code the path expression's: both fail at the same
+				// position, the texts differ beyond the wrapper
+				if ma != mb && strings.HasPrefix(ma, "setpath(") && strings.Contains(ma, " cannot be applied to ") && !strings.HasPrefix(mb, "setpath(") {
+					hSameOutputs(a[:len(a)-1], b[:len(b)-1], "optimised vs rewrite disabled")
+					vassert(false, "the constant-path assignment rewrite reports setpath's failure where the path expression's own failure is reported without it")
 					return
 				}
 			}
